@@ -130,4 +130,69 @@ CHECKS = {
         technique='Hypothesis-generated event histories (pushes, reviews, labels, statuses, batch completions, target moves, delayed delivery) against a ground-truth fake GitHub/Batch with a monitor at the instant of PUT .../merge',
         text='6.7k histories per quick run (~75% reach a merge attempt) drive the real WatchedBranch/PR update, heal and merge code; every merge is judged against ground truth: approved, no blocking label, required checks green on the current head, test batch green for (head, current target), one merge per target sha.',
         note='Trusts vlib/fakegithub.py (REST/GraphQL/Batch/db fakes, no branch protection) and six replaced module globals of ci.github (shell/build config); a clause is strict only for facts CI has had the chance to read. Two defects found were fixed.'),
+    'C01': dict(
+        level='exploration',
+        technique='Hypothesis-generated service histories (JSON op lists) executed by the real front-end/driver code and the repository SQL on minimysql; after every op aggregates are recomputed from primary rows (reference recomputation, not a second implementation)',
+        text='~1k histories per quick run (<= 43 ops; n_tokens 1/2/5 with harness-drawn shards): all eight user_inst_coll_resources columns and the job-group cancellable counters must equal the recomputation from job rows after every op.',
+        note='Serializable at transaction granularity on an interpreter, not MySQL itself; INSERT..SELECT-from-target evaluated per row. Three known findings are excluded by construction (guards) and re-demonstrated from corpus/C01.'),
+    'C04': dict(
+        level='exploration',
+        technique='Hypothesis histories weighted to duplicated/late/stale worker messages; lifecycle relation checked at every transaction boundary, tallies recomputed after every op',
+        text='~1k histories per quick run: every job state change observed between two transactions must be in the allowed relation (terminal absorbing), and per-group completed/succeeded/failed/cancelled tallies must equal the count of terminal jobs in the subtree.',
+        note='Same engine limits as C01; worker reports are only generated from active instances (endpoint precondition).'),
+    'C05': dict(
+        level='exploration',
+        technique='Hypothesis histories with DAGs spread over several updates, all completion outcomes; dependency invariants recomputed from job_parents after every op',
+        text='~1k histories per quick run: non-Pending => all parents terminal; no committed Pending job with all parents terminal; n_pending_parents exact; cancelled flag iff a parent did not succeed; cancelled non-always-run jobs never enter Creating/Running.',
+        note='Same engine limits as C01.'),
+    'C10': dict(
+        level='exploration',
+        technique='Hypothesis histories on pool and job-private instances (create/activate/deactivate/delete, schedule, creating, started, complete, unschedule, duplicates, stale attempts); free cores recomputed from attempts after every op and compared with table and in-memory values',
+        text='~1k histories per quick run: for live instances free_cores_mcpu == cores - sum(un-ended attempt cores); inactive => all free; the driver Instance object agrees with the table.',
+        note='Caller preconditions respected (worker endpoints only from active instances, unschedule only on active instances, mark_job_creating only for job-private pending instances). Same engine limits as C01.'),
+    'C41': dict(
+        level='exploration',
+        technique='Hypothesis histories weighted to late / never committed updates with parents in earlier updates, real scheduler and canceller loop bodies in between; direct invariants on uncommitted jobs + committed-only recomputation of counters, n_jobs and completeness',
+        text='~1k histories per quick run (5 unguarded shards re-find the two known root causes, 11 guarded shards search behind them).',
+        note='Same engine limits as C01. Two known findings (scheduler and mark_job_complete ignore batch_updates.committed).'),
+    'C11': dict(
+        level='exploration',
+        technique='exhaustive small grid + Hypothesis demand multisets written as sharded rows into minimysql, the real PoolScheduler._compute_fair_share (incl. its GROUP BY/HAVING query) against an exact Fraction water-filling solver',
+        text='~25k cases per quick run (<= 8 users, ties, zeros, negative/zero/small/large free cores, 1-5 token shards incl. negative shards, rows of another pool).',
+        note='Tolerance 1 mcpu per user for the int(x + 0.5) rounding (derived slack 1/2). Trusts minimysql GROUP BY/HAVING and the solver.'),
+    'C12': dict(
+        level='exploration',
+        technique='Hypothesis pool configurations x request strings through the real validator and front_end._create_jobs on batchsim; independent Fraction + brute-force feasibility oracle',
+        text='~27k requests per quick run over gcp and azure: accepted => granted cores/memory/storage >= request and fit one worker in a matching collection; "unsatisfiable" => brute force finds no feasible collection.',
+        note='Per-core memory and machine-type tables are hand-copied; fe.CLOUD patched per case. Two known crash findings (non-power-of-two pool cores); one crash fixed.'),
+    'C13': dict(
+        level='exploration',
+        technique='exhaustive enumeration of instance configurations (all valid gcp/azure machine types x disks x preemptible x locations x job_private) x generated packings; first-principles quantities and to_dict/from_dict/JSON round trips',
+        text='~70k cases per quick run: sum of static quantities over any packing <= whole instance, whole-instance job billed exactly the instance, serialized configs bill identically.',
+        note='Dynamic external storage excluded by definition; trusts first-principles quantities in checks/c13.py.'),
+    'C14': dict(
+        level='exploration',
+        technique='every route of front_end.routes enumerated at run time x 13 caller kinds x id bindings x bodies, driven in-process through aiohttp _handle with the production middlewares on batchsim; statement-derived allow/deny classes; snapshot + outbound-call + SQL-log comparison on denial',
+        text='5.4k exhaustive requests + 3.2k generated per quick run: protected routes deny anonymous/inactive/strangers, owner-only mutations deny members, billing administration denies non-developers, and a denied request changes nothing.',
+        note='Auth service faked at the client-session boundary; jinja rendering replaced by a JSON echo. One defect (update token lookup without ownership check) was fixed.'),
+    'C27': dict(
+        level='fault_enumeration',
+        technique='exhaustive single-fault enumeration (31 body shapes x attempt 1..3 x every position x 14 error kinds) + Hypothesis multi-fault plans injected through the fake driver into the real gear.database; dict reference model',
+        text='Retried iff the injected error is transient (1040, 1205, 1213, 2003, 2013); other errors propagate after one attempt; table equals "exactly one committed attempt or none"; every connection released once.',
+        note='A fault at COMMIT is modelled as commit-did-not-happen; streaming select helpers have no retry wrapper (documented). One defect (1205 as OperationalError) was fixed.'),
+    'C35': dict(
+        level='translation_validation',
+        technique='generated shared-node IR DAGs (expression API and direct ir constructors) rendered with CSERenderer and PlainRenderer; binder-identity scope checking, let-erasure comparison and differential evaluation in a reference interpreter',
+        text='~4.5k DAGs per quick run incl. lets depending on lambda variables, agg/scan scopes and nested lambdas; both texts are parsed and related.',
+        note='Trusts vlib/irtools.py (reader + binding table transcribed from Binds.scala/Env.scala) and the reference interpreter; aggregations in scans are scope/substitution-checked only. Six known signatures (two root causes).'),
+    'C36': dict(
+        level='exploration',
+        technique='typed-program generation over the expression/Table/MatrixTable APIs without execution; an independent bottom-up type inferencer over the emitted IR text with rules written from the Scala InferType/TypeCheck/TableIR/MatrixIR',
+        text='~3.6k programs per quick run (190k IR nodes): front-end dtype == inferred IR type for every node, Ref and table/matrix component; literals typecheck.',
+        note='Typing rules and 32 registry signatures are hand-transcribed; node kinds outside the rule set are counted (0). One known finding (impute_type numpy widening).'),
+    'C38': dict(
+        level='exploration',
+        technique='exhaustive + Hypothesis interval sizes on the real partitioning; op-list merge plans through the real new_combiner/run/step/save/load with provenance-tracking engine fakes and crash/resume injection',
+        text='MT/chrM sizes 1-5000 exhaustive for both genomes, whole-genome sizes to 3e8; hundreds of merge plans each with ~6 resume points: one final dataset built from exactly the inputs, each once; saved plan is a fixed point.',
+        note='Part (b) says nothing about the engine merge itself. Three defects found were fixed.'),
 }
